@@ -685,3 +685,109 @@ def check_c10(result, ex, clause="callback"):
         raise Violation(f"{clause}.receive-not-refused", f"{where}: receive() after setcallback gave {tail[:1]}")
     if len(tail) < 2 or tail[1][:2] != ["setcallback", "oserror"]:
         raise Violation(f"{clause}.second-setcallback", f"{where}: a second setcallback gave {tail[1:2]}")
+
+
+# =============================================================================================
+# C18: channel ids never collide, channels travel over channels, tables do not grow
+# =============================================================================================
+
+
+def c18_params(max_rounds=4):
+    rnd = st.fixed_dictionaries(dict(
+        creator=st.sampled_from(["a", "b"]),
+        wrap=st.sampled_from(["bare", "list", "tuple", "dict"]),
+        end=st.sampled_from(["creator_close", "peer_close", "creator_drop", "peer_drop", "both_drop"]),
+        extra_b_threads=st.integers(0, 2),
+    ))
+    return st.lists(rnd, min_size=1, max_size=max_rounds)
+
+
+def c18_conversation(conv, rounds):
+    """every round: one side creates a channel, passes it over the exec channel (bare or nested in a container), both
+    sides exchange a token over it in both directions, then it is closed or dropped; `extra_b_threads` extra threads on
+    B create (and close) channels of their own at the same time"""
+    a_ops, b_ops, expect = [], [], []
+    for r, p in enumerate(rounds):
+        name = f"s{r}"
+        tok_c = {"l": ["tok", conv, r, "from-creator"]}
+        tok_p = {"l": ["tok", conv, r, "from-peer"]}
+        creator_ops = [["newchannel", name], ["send_chan", "main", name, p["wrap"]], ["send", name, tok_c], ["recv", name, 1]]
+        peer_ops = [["recv_chan", "main", name], ["recv", name, 1], ["send", name, tok_p]]
+        if p["end"] == "creator_close":
+            creator_ops += [["close", name]]
+            peer_ops += [["recv_until", name, 0], ["drop", name]]
+        elif p["end"] == "peer_close":
+            peer_ops += [["close", name]]
+            creator_ops += [["recv_until", name, 0], ["drop", name]]
+        elif p["end"] == "creator_drop":
+            creator_ops += [["drop", name]]
+            peer_ops += [["recv_until", name, 0], ["drop", name]]
+        elif p["end"] == "peer_drop":
+            peer_ops += [["drop", name]]
+            creator_ops += [["recv_until", name, 0], ["drop", name]]
+        else:
+            creator_ops += [["drop", name]]
+            peer_ops += [["drop", name]]
+        extra = []
+        for t in range(p["extra_b_threads"]):
+            tn = f"x{r}.{t}"
+            extra.append(["spawn", tn, [["newchannel", f"{name}.x{t}"], ["close", f"{name}.x{t}"], ["drop", f"{name}.x{t}"]]])
+        joins = [["join", f"x{r}.{t}"] for t in range(p["extra_b_threads"])]
+        if p["creator"] == "a":
+            a_ops += creator_ops
+            b_ops += extra + peer_ops + joins
+        else:
+            b_ops += extra + creator_ops + joins
+            a_ops += peer_ops
+        expect.append(dict(conv=conv, r=r, name=name, creator=p["creator"], tok_c=fp_of(tok_c), tok_p=fp_of(tok_p),
+                           end=p["end"]))
+    a_ops = [["remote_exec", "main", b_ops]] + a_ops + [["waitclose", "main"]]
+    return a_ops, expect
+
+
+def check_c18(result, expects, clause="ids"):
+    ids = {"a": [], "b": []}
+    for side in ("a", "b"):
+        for key, log in (result[side] or {}).items():
+            for e in log:
+                if e[0] == "newchannel" and e[1] == "ok":
+                    ids[side].append(e[2])
+                if e[0] == "remote_exec" and e[1] == "ok" and len(e) > 2 and e[2] is not None:
+                    ids["a"].append(e[2])
+    for side, parity in (("a", 1), ("b", 0)):
+        if len(set(ids[side])) != len(ids[side]):
+            dup = sorted(i for i in set(ids[side]) if ids[side].count(i) > 1)
+            raise Violation(f"{clause}.duplicate-id", f"side {side} handed out channel id(s) {dup} more than once "
+                            f"({len(ids[side])} channels created concurrently)")
+        bad = [i for i in ids[side] if i % 2 != parity]
+        if bad:
+            raise Violation(f"{clause}.parity", f"side {side} created channels with ids {bad[:5]}: the two sides must allocate "
+                            f"from disjoint id spaces")
+    if set(ids["a"]) & set(ids["b"]):
+        raise Violation(f"{clause}.cross-side-collision", f"both sides created channel ids {sorted(set(ids['a']) & set(ids['b']))}")
+    for ex in expects:
+        conv = ex["conv"]
+        creator, peer = ex["creator"], ("b" if ex["creator"] == "a" else "a")
+        clog = (result[creator] or {}).get(f"{creator}:{conv}:main", [])
+        plog = (result[peer] or {}).get(f"{peer}:{conv}:main", [])
+        where = f"conv {conv} round {ex['r']} (created by {creator}, {ex['end']})"
+        created = [e for e in clog if e[0] == "newchannel"]
+        received = [e for e in plog if e[0] == "recv_chan"]
+        rr = [x for x in received if x[1] != "ok"]
+        if rr:
+            raise Violation(f"{clause}.transfer-failed", f"{where}: {rr[:1]}")
+        # the token sent by the creator must be what the peer reads from the transferred channel, and vice versa
+        if ["item", ex["tok_c"]] not in plog:
+            raise Violation(f"{clause}.not-connected", f"{where}: the peer did not receive the creator's token on the "
+                            f"transferred channel: {[e for e in plog if e[0] in ('item', 'eof', 'timeout')][:6]}")
+        if ["item", ex["tok_p"]] not in clog:
+            raise Violation(f"{clause}.not-connected", f"{where}: the creator did not receive the peer's token: "
+                            f"{[e for e in clog if e[0] in ('item', 'eof', 'timeout')][:6]}")
+    # transferred channels keep their id
+    for conv in {ex["conv"] for ex in expects}:
+        for creator, peer in (("a", "b"), ("b", "a")):
+            cids = [e[2] for e in (result[creator] or {}).get(f"{creator}:{conv}:main", []) if e[0] == "newchannel" and e[1] == "ok"]
+            pids = [e[2] for e in (result[peer] or {}).get(f"{peer}:{conv}:main", []) if e[0] == "recv_chan" and e[1] == "ok"]
+            if sorted(cids) != sorted(pids):
+                raise Violation(f"{clause}.id-changed", f"conv {conv}: channels created by {creator} have ids {cids}, "
+                                f"the peer received channels with ids {pids}")
